@@ -1,29 +1,122 @@
-"""python3-vt -m pyvc.worker <contracts-module> <unit-name> : verify one unit, print one JSON line."""
-import importlib, json, sys
+"""python3-vt -m pyvc.worker <contracts-module> <unit-name> [--par N] : verify one unit, print one JSON line.
+
+With --par N the path tree is explored by N processes sharing work: every job explores at most JOB_PATHS paths below its
+prefixes and hands the unexplored prefixes back (DESIGN.md 2.4: paths are independent, obligations are merged by name)."""
+import concurrent.futures as cf
+import importlib
+import json
+import os
+import sys
+import time
+
 from .contract import verify_unit
 
+JOB_PATHS = int(os.environ.get('PYVC_JOB_PATHS', '6'))
 
-def main():
-    mod = importlib.import_module('contracts.' + sys.argv[1])
+
+def load(modname, unitname):
+    mod = importlib.import_module('contracts.' + modname)
     contracts = {}
     mods = [mod] + [importlib.import_module('contracts.' + m) for m in getattr(mod, 'DEPENDS', [])]
     for m in mods:
         for u in m.UNITS:
             if not u.mode:
                 contracts.setdefault(u.fn, u)
-    unit = [u for u in mod.UNITS if u.name == sys.argv[2]][0]
-    import os
-    r = verify_unit(unit, contracts, timeout_ms=int(os.environ.get('PYVC_TIMEOUT_MS', '10000')))
-    obs = []
-    for k, ob in sorted(r.obligations.items()):
-        obs.append({'name': k, 'status': ob.status, 'paths': ob.paths, 'witnessed': ob.witnessed, 'time': round(ob.time, 3),
-                    'sample': ob.sample,
-                    'failed': [{'path': f['path'][-12:], 'model': f['model'], 'clause': f['clause'][:1500], 'info': f['info']}
-                               for f in ob.failed[:2]],
-                    'unknown': [{'reason': f['reason'], 'clause': f['clause'][:300]} for f in ob.unknown[:1]]})
-    print('PYVC-RESULT ' + json.dumps({'unit': unit.name, 'status': r.status, 'reason': r.reason, 'stats': dict(r.stats),
-                                       'wall': round(r.wall, 2), 'obligations': obs, 'callees': sorted(r.callees),
-                                       'env_used': sorted(r.env_used), 'notes': r.notes}, default=str))
+    unit = [u for u in mod.UNITS if u.name == unitname][0]
+    return unit, contracts
+
+
+def ob_dict(k, ob):
+    return {'name': k, 'status': ob.status, 'paths': ob.paths, 'discharged': ob.discharged,
+            'witnessed': ob.witnessed or ob.vacuous_paths < ob.paths, 'definitely_witnessed': ob.witnessed,
+            'time': round(ob.time, 3), 'sample': ob.sample,
+            'failed': [{'path': f['path'][-12:], 'model': f['model'], 'clause': f['clause'][:1500], 'info': f['info']} for f in ob.failed[:2]],
+            'unknown': [{'reason': f['reason'], 'clause': f['clause'][:300], 'path': f['path'][-8:]} for f in ob.unknown[:2]]}
+
+
+def result_dict(unit, r):
+    return {'unit': unit.name, 'status': r.status, 'reason': r.reason, 'stats': dict(r.stats), 'wall': round(r.wall, 2),
+            'obligations': [ob_dict(k, ob) for k, ob in sorted(r.obligations.items())], 'callees': sorted(r.callees),
+            'env_used': sorted(r.env_used), 'notes': r.notes, 'leftover': getattr(r, 'leftover', [])}
+
+
+def run_job(args):
+    modname, unitname, jobs, budget, tmo = args
+    unit, contracts = load(modname, unitname)
+    r = verify_unit(unit, contracts, timeout_ms=tmo, jobs=jobs, budget=budget)
+    return result_dict(unit, r)
+
+
+def merge(acc, d):
+    if acc is None:
+        return d
+    if d['status'] != 'ok' and acc['status'] == 'ok':
+        acc['status'], acc['reason'] = d['status'], d['reason']
+    elif d['status'] == 'error' and acc['status'] != 'error':
+        acc['status'], acc['reason'] = d['status'], d['reason']
+    for k, v in d['stats'].items():
+        acc['stats'][k] = acc['stats'].get(k, 0) + v
+    obs = {o['name']: o for o in acc['obligations']}
+    for o in d['obligations']:
+        e = obs.get(o['name'])
+        if e is None:
+            obs[o['name']] = o
+            continue
+        e['paths'] += o['paths']
+        e['discharged'] += o['discharged']
+        e['time'] = round(e['time'] + o['time'], 3)
+        e['failed'] = (e['failed'] + o['failed'])[:2]
+        e['unknown'] = (e['unknown'] + o['unknown'])[:2]
+        e['witnessed'] = e['witnessed'] or o['witnessed']
+        e['definitely_witnessed'] = e['definitely_witnessed'] or o['definitely_witnessed']
+        e['sample'] = e['sample'] or o['sample']
+        e['status'] = 'failed' if e['failed'] else ('unknown' if e['unknown'] else 'discharged')
+    acc['obligations'] = [obs[k] for k in sorted(obs)]
+    acc['callees'] = sorted(set(acc['callees']) | set(d['callees']))
+    acc['env_used'] = sorted(set(acc['env_used']) | set(d['env_used']))
+    acc['notes'] = list(dict.fromkeys(acc['notes'] + d['notes']))
+    return acc
+
+
+def run_parallel(modname, unitname, par, tmo):
+    t0 = time.time()
+    unit, _ = load(modname, unitname)
+    nprof = len(unit.profiles or [unit.profile])
+    acc = None
+    pending = [[(i, [])] for i in range(nprof)]
+    with cf.ProcessPoolExecutor(max_workers=par) as ex:
+        futs = set()
+        while pending or futs:
+            while pending and len(futs) < par * 2:
+                jobs = pending.pop()
+                futs.add(ex.submit(run_job, (modname, unitname, jobs, JOB_PATHS, tmo)))
+            done, futs = cf.wait(futs, return_when=cf.FIRST_COMPLETED)
+            for f in done:
+                d = f.result()
+                left = d.pop('leftover', [])
+                acc = merge(acc, d)
+                if d['status'] == 'ok':
+                    # one prefix per new job keeps the load balanced; deep prefixes first (they are the short jobs)
+                    for (pi, p) in left:
+                        pending.append([(pi, p)])
+    acc['wall'] = round(time.time() - t0, 2)
+    if acc['status'] == 'ok' and acc['stats'].get('normal_exits', 0) + acc['stats'].get('exc_exits', 0) == 0:
+        acc['status'], acc['reason'] = 'error', 'vacuous: no path reaches an exit of the function (contradictory precondition?)'
+    return acc
+
+
+def main():
+    tmo = int(os.environ.get('PYVC_TIMEOUT_MS', '10000'))
+    modname, unitname = sys.argv[1], sys.argv[2]
+    par = int(sys.argv[sys.argv.index('--par') + 1]) if '--par' in sys.argv else 1
+    unit, contracts = load(modname, unitname)
+    if par > 1 and getattr(unit, 'parallel', False):
+        d = run_parallel(modname, unitname, par, tmo)
+    else:
+        r = verify_unit(unit, contracts, timeout_ms=tmo)
+        d = result_dict(unit, r)
+        d.pop('leftover', None)
+    print('PYVC-RESULT ' + json.dumps(d, default=str))
 
 
 if __name__ == '__main__':
